@@ -185,7 +185,7 @@ class InteractiveStepExecutor(ExecutorBase):
         executor_kwargs: dict = {},
         spawner: BaseSpawner = MpiExecSpawner,
     ):
-        super().__init__(max_cores=executor_kwargs.get("max_cores", None))
+        super().__init__(max_cores=max_cores)
         executor_kwargs["future_queue"] = self._future_queue
         executor_kwargs["spawner"] = spawner
         executor_kwargs["max_cores"] = max_cores
